@@ -9,7 +9,7 @@ from concurrent.futures import ThreadPoolExecutor
 
 from . import core
 
-ALPHABETS = ['A1', 'A2', 'A3', 'A4', 'A5', 'A6', 'A7', 'A8', 'A9']
+ALPHABETS = ['A1', 'A2', 'A3', 'A4', 'A5', 'A6', 'A7', 'A8', 'A9', 'B1', 'B2', 'B3', 'B4']
 
 # classes of input on which the implementation is recorded to deviate (known_findings.json); decided by the specification (tags)
 FINDING_TAGS = {'lazy-after-nonpara', 'lazy-after-indented-quote-content', 'lazy-line-looks-like-setext-underline', 'setext-in-quote',
@@ -35,8 +35,11 @@ def documents(ck, depth):
     jobs = []
     for a in ALPHABETS:
         cfg = 'BlockParse%s_%d.cfg' % (a, depth)
-        for k in range(1, alphabet_size(cfg) + 1):
-            jobs.append((cfg, str(k)))
+        if depth <= 3:
+            jobs.append((cfg, '-'))           # small enough for one TLC process per alphabet
+        else:
+            for k in range(1, alphabet_size(cfg) + 1):
+                jobs.append((cfg, str(k)))
 
     def one(job):
         cfg, shard = job
